@@ -45,7 +45,9 @@ def run(ctx):
             ctx.count("R-C05-INV")
         except (AnchorMissing, Unsupported) as e:
             ctx.violation("R-C05-INV", t, ("", 0, t), "cannot infer object invariant: %s" % e)
-    since = run_roots(ctx, A, bodies, "R-C05")
+    # DecoderReader::read is analysed first, from every decoder state; its callers then use it as an opaque total function
+    since = run_roots(ctx, A, bodies, "R-C05", modular=("transport::decoder_reader::DecoderReader::<B, R>::read",
+                                                           "transport::decoder_reader::DecoderReader::<B, R>::next"))
     # closures that no root reached through a call (lazy iterator adapters) are analysed on their own
     missing = check_visited(ctx, A, bodies, "R-C05")
     for b in list(missing):
